@@ -31,13 +31,13 @@ type swapReq struct {
 }
 
 type C04 struct {
-	st       *Stats
-	reqs     []*swapReq
-	endPre   map[string]map[string]math.Int
-	sawSwap  bool
+	st      *Stats
+	reqs    []*swapReq
+	endPre  map[string]map[string]math.Int
+	sawSwap bool
 }
 
-func NewC04() *C04          { return &C04{st: NewStats("C04")} }
+func NewC04() *C04           { return &C04{st: NewStats("C04")} }
 func (m *C04) Stats() *Stats { return m.st }
 
 func balMap(w *chain.World, ctx sdk.Context, addr string) map[string]math.Int {
